@@ -180,8 +180,14 @@ Definition sleep (W : world) (s : st) (d : Z) : st :=
   let '(s1, l) := fire_upto W (acts s) target s in
   set_acts (set_now s1 target) l.
 
-(* Event.wait(timeout): returns at once when set, at the first action, or at the time-out *)
+(* requests of other threads that are due (scheduled time <= clock) but did not run yet are executed when the
+   poll thread enters a method of the trigger event (wait, clear): another thread runs between two statements of
+   the poll thread *)
+Definition fire_due (W : world) (s : st) : st := sleep W s 0.
+
+(* Event.wait(timeout): due requests run first; returns at once when set, at the first action, or at the time-out *)
 Definition wait (W : world) (s : st) (timeout : Z) : st :=
+  let s := fire_due W s in
   let s := emit s (LWait (now s) timeout) in
   if ev s then s else
   let target := now s + Z.max 0 timeout in
@@ -371,7 +377,7 @@ Definition turn (W : world) (s : st) : st :=
   let s := emit s (LTurn (now s)) in
   let wt := wait_time (mods s) (now s) in
   if (0 <? wt) && (match topoll s with None => true | Some _ => false end)
-  then set_ev (wait W s wt) false
+  then set_ev (fire_due W (wait W s wt)) false           (* wait; [due requests run]; clear *)
   else slow_phase W (main_phase W s).
 
 Fixpoint turns (W : world) (n : nat) (s : st) : st :=
